@@ -7,7 +7,7 @@ import re
 from harness import core, htmlnorm, treegen, trees, xdoc
 
 GEN = ['gen_tables', 'gen_regex', 'gen_config', 'gen_escapes', 'gen_core']
-THEOREMS = ['C03_fragment_inert_instance', 'C03_fragment_emphasis_instance', 'C03_fragment_rules_instance', 'C03_thematic_break', 'C03_thematic_configs', 'C03_setext_heading', 'C03_setext_hypotheses', 'C03_indented_code_block', 'C03_indented_code_hypotheses', 'C03_link_scanners_are_the_source', 'C03_fragment_parses', 'C03_fragment_token_tree', 'C03_fragment_hypotheses', 'C03_fragment_fuel_suffices', 'C03_fragment_document',
+THEOREMS = ['C03_fragment_lists_instance', 'C03_fragment_inert_instance', 'C03_fragment_emphasis_instance', 'C03_fragment_rules_instance', 'C03_thematic_break', 'C03_thematic_configs', 'C03_setext_heading', 'C03_setext_hypotheses', 'C03_indented_code_block', 'C03_indented_code_hypotheses', 'C03_link_scanners_are_the_source', 'C03_fragment_parses', 'C03_fragment_token_tree', 'C03_fragment_hypotheses', 'C03_fragment_fuel_suffices', 'C03_fragment_document',
             'C03_fragment_html', 'C03_fragment_markdown_html', 'C03_fragment_html_instance', 'C03_fragment_paragraph_lines_instance', 'C03_fragment_headings_instance', 'C03_outline_lists', 'C03_outline_html', 'C03_outline_instance',
             'C03_fragment_document_markdown', 'C03_fragment_document_configs', 'C03_bounded_trees', 'C03_family_is_not_vacuous']
 TRUSTED = ['harness/treegen.py: the tree grammar, the speller (every free choice drawn and counted) and the direct HTML writer - the independent oracle; '
@@ -118,15 +118,28 @@ def frag_tree(rng, depth):
                 return ('p', lines)
         return ('p', ['alpha'])
     kids = [frag_tree(rng, depth - 1) for _ in range(rng.randint(1, 3))]
-    for i in range(1, len(kids)):                                   # two lists are never neighbours
-        if kids[i][0] == 'i' and kids[i - 1][0] == 'i':
-            kids[i] = ('q', [kids[i]])
+    frag_fix_kids(kids)
     if r < 0.7:
         return ('q', kids)
     mk = rng.choice(['-', '+', '*', '1.', '7)', '12.', '123456789)', '0.'])
-    if kids[0][0] == 'r' and mk in '-*' and kids[0][1][0] == mk:      # `- ---` would be a thematic break as a whole
-        kids[0] = ('r', ('_' if mk == '-' else '-') * len(kids[0][1]))
-    return ('i', mk, rng.randint(1, 4), kids)
+    items = [(mk, rng.randint(1, 4), kids)]
+    while rng.random() < 0.4 and len(items) < 4:                      # more items of the same list, each after a blank line (leaf-ward: FMore)
+        mk2 = mk if len(mk) == 1 else str(rng.choice([0, 1, 2, 7, 10, 99, 123456789])) + mk[-1]
+        kids2 = [frag_tree(rng, depth - 1) for _ in range(rng.randint(1, 2))]
+        frag_fix_kids(kids2)
+        items.append((mk2, rng.randint(1, 4), kids2))
+    t = None
+    for (m, pad, ks) in reversed(items):
+        if ks[0][0] == 'r' and m in '-*' and ks[0][1][0] == m:        # `- ---` would be a thematic break as a whole
+            ks[0] = ('r', ('_' if m == '-' else '-') * len(ks[0][1]))
+        t = ('i', m, pad, ks) if t is None else ('m', m, pad, ks, t)
+    return t
+
+
+def frag_fix_kids(kids):
+    for i in range(1, len(kids)):                                   # two lists are never neighbours
+        if kids[i][0] in 'im' and kids[i - 1][0] in 'im':
+            kids[i] = ('q', [kids[i]])
 
 
 def _zl(x):
@@ -150,10 +163,12 @@ def frag_gallina(t):
             k = len(l) - len(l.lstrip(' '))
             return '(SLine %d %d %s)' % (k, ord(l[k]), _zl(l[k + 1:]))
         return '(FFence %d %d [%s])' % (ord(t[1][0]), len(t[1]), '; '.join(sl(l) for l in t[2]))
-    kids = '[' + '; '.join(frag_gallina(k) for k in t[-1]) + ']'
     if t[0] == 'q':
-        return '(FQuote %s)' % kids
+        return '(FQuote [%s])' % '; '.join(frag_gallina(k) for k in t[1])
+    kids = '[' + '; '.join(frag_gallina(k) for k in t[3]) + ']'
     mk = '(MBullet %d)' % ord(t[1]) if len(t[1]) == 1 else '(MOrdered %s %d)' % (_zl(t[1][:-1]), ord(t[1][-1]))
+    if t[0] == 'm':
+        return '(FMore %s %d %s %s)' % (mk, t[2], kids, frag_gallina(t[4]))
     return '(FItem %s %d %s)' % (mk, t[2], kids)
 
 
@@ -206,7 +221,7 @@ def frag_spell(t):
         return [t[1] + t[2] + t[3] + t[2] + t[4]]
     if t[0] == 'f':
         return [t[1]] + t[2] + [t[1]]
-    kids = t[-1]
+    kids = t[1] if t[0] == 'q' else t[3]
     inner = []
     for i, k in enumerate(kids):
         if i:
@@ -215,7 +230,8 @@ def frag_spell(t):
     if t[0] == 'q':
         return ['> ' + l for l in inner]
     w = len(t[1]) + t[2]
-    return [t[1] + ' ' * t[2] + inner[0]] + [(' ' * w + l) if l else '' for l in inner[1:]]
+    item = [t[1] + ' ' * t[2] + inner[0]] + [(' ' * w + l) if l else '' for l in inner[1:]]
+    return item + [''] + frag_spell(t[4]) if t[0] == 'm' else item
 
 
 def frag_expect(t, ln):
@@ -236,19 +252,31 @@ def frag_expect(t, ln):
         return [trees.TAGS['Paragraph'], [[0, t[1]], em] + ([[0, t[4]]] if t[4] else [])], [ln]
     if t[0] == 'f':
         return [trees.TAGS['CodeFence'], 0, t[1], '', '', ''.join(l + '\n' for l in t[2])], [ln]
-    kids = t[-1]
-    ds, ls = [], []
-    cur = ln
-    for k in kids:
-        d, l = frag_expect(k, cur)
-        ds.append(d)
-        ls += l
-        cur += len(frag_spell(k)) + 1
+    def seq(kids, cur):
+        ds, ls = [], []
+        for k in kids:
+            d, l = frag_expect(k, cur)
+            ds.append(d)
+            ls += l
+            cur += len(frag_spell(k)) + 1
+        return ds, ls
     if t[0] == 'q':
+        ds, ls = seq(t[1], ln)
         return [trees.TAGS['Quote'], ds], [ln] + ls
-    loose = len(kids) > 1
+    # a list: the items of the chain; an item followed by another is loose (the blank line is its own), the last one only with two blocks or more
+    items, lines, cur, node = [], [ln], ln, t
+    while True:
+        ds, ls = seq(node[3], cur)
+        last = node[0] == 'i'
+        loose = len(node[3]) > 1 if last else True
+        items.append([trees.TAGS['ListItem'], node[1], 0, len(node[1]) + node[2], loose, ds])
+        lines += [cur] + ls
+        if last:
+            break
+        cur += len(frag_spell(('i',) + tuple(node[1:4]))) + 1
+        node = node[4]
     start = [] if len(t[1]) == 1 else [int(t[1][:-1])]
-    return [trees.TAGS['List'], start, loose, [[trees.TAGS['ListItem'], t[1], 0, len(t[1]) + t[2], loose, ds]]], [ln, ln] + ls
+    return [trees.TAGS['List'], start, any(i[4] for i in items), items], lines
 
 
 def frag_html(t, tight):
@@ -267,10 +295,21 @@ def frag_html(t, tight):
         return inner if tight else '<p>' + inner + '</p>'
     if t[0] == 'f':
         return '<pre><code>' + esc(''.join(l + '\n' for l in t[2])) + '</code></pre>'
-    kids = t[-1]
     if t[0] == 'q':
-        return '<blockquote>\n' + '\n'.join(frag_html(k, False) for k in kids) + '\n</blockquote>'
+        return '<blockquote>\n' + '\n'.join(frag_html(k, False) for k in t[1]) + '\n</blockquote>'
+    kids = t[3]
     tg = len(kids) <= 1
+    if t[0] == 'm':                        # several items: a loose list
+        lis, node = [], t
+        while True:
+            lis.append('<li>\n' + '\n'.join(frag_html(k, False) for k in node[3]) + '\n</li>')
+            if node[0] == 'i':
+                break
+            node = node[4]
+        if len(t[1]) == 1:
+            return '<ul>\n' + '\n'.join(lis) + '\n</ul>'
+        n = int(t[1][:-1])
+        return ('<ol>' if n == 1 else '<ol start="%d">' % n) + '\n' + '\n'.join(lis) + '\n</ol>'
     if len(t[1]) == 1:
         op, cl = '<ul>', '</ul>'
     else:
@@ -462,6 +501,9 @@ def run(ctx, only=None):
             ctx.failing.append({'interface': 'oracle(fragment)', 'input': {'text': text, 'seed': seed, 'depth': depth},
                                 'what': 'a tree of plain paragraphs, fenced code, quotes and single-item lists does not parse to the tree it was written from', 'observed': got, 'expected': want, 'kf': None})
     ctx.count('fragment_trees_with_inert_delimiters', sum(1 for (_, d_), (text, _, _, _) in zip(fjobs, fres) if re.search(r'[\[\]!&]|\*[^*\n]|_', text) ))
+    def has_more(t):
+        return t[0] == 'm' or (t[0] in 'qi' and any(has_more(k) for k in (t[1] if t[0] == 'q' else t[3])))
+    ctx.count('fragment_trees_with_lists_of_several_items_in_first_1500', sum(1 for (seed, depth) in fjobs[:1500] if has_more(frag_tree(random.Random(seed), depth))))
     # the theorem's own hypothesis (wf_b) and the text it speaks about (spell), evaluated in the proof assistant on a sample of those trees
     if not ctx.proof_failures:
         sample = [(seed, depth) for (seed, depth) in fjobs if depth <= 4][:(150 if ctx.quick() else 1500)]
